@@ -142,6 +142,17 @@ pub fn gen_spec(rng: &mut Rng, o: &SpecOpts) -> SpecTable {
         if can_global {
             let min = if rng.chance(1, 2) { None } else { Some(rng.below(3)) };
             let max = if rng.chance(1, 2) { None } else { Some(min.unwrap_or(0) + 1 + rng.below(3)) };
+            // often the very bounds of a placeholder the table already has (Crc32's and Void's included):
+            // paths that end alike but begin differently must not be taken for one another
+            let mut existing: Vec<(Option<u64>, Option<u64>)> = vec![(Some(1), None), (None, None)];
+            for e in elems.iter() {
+                for pp in &e.path {
+                    if let PathPart::Global(b) = pp {
+                        existing.push(*b);
+                    }
+                }
+            }
+            let (min, max) = if rng.chance(2, 5) { *rng.pick(&existing) } else { (min, max) };
             path.push(PathPart::Global((min, max)));
             if ty == Ty::Master && !o.global_masters {
                 ty = *rng.pick(&leaf_tys);
@@ -337,6 +348,8 @@ struct DocGen<'a> {
     spec: &'a SpecTable,
     o: &'a DocOpts,
     left: usize,
+    /// unknown-size flags of the masters in `chain` (parallel to it)
+    unk: Vec<bool>,
 }
 
 impl<'a> DocGen<'a> {
@@ -361,9 +374,26 @@ impl<'a> DocGen<'a> {
             if self.left == 0 {
                 break;
             }
-            // after an unknown-size master a global-pathed element would be ambiguous: excluded
-            let prev_unknown = out.last().map(|n: &Node| n.is_master() && ends_open(n)).unwrap_or(false);
-            let pool: Vec<&&ElemDef> = cands.iter().filter(|e| !(prev_unknown && e.has_global())).collect();
+            // Where a document would be ambiguous (the properties exclude it):
+            //  - after an unknown-size master N only something that ends N can follow. For a placeholder-free
+            //    N that is any placeholder-free sibling; a global-pathed element would be read as a child of N.
+            //    An unknown-size master whose own path has a placeholder stays the last child (whether an
+            //    element with the same global path is its sibling or "a global element, which never closes
+            //    it" is where the property texts pull in two directions).
+            //  - no child that by itself ends a master of the trailing run of unknown-size masters it is
+            //    written into (possible only through placeholders).
+            let prev = out.last().filter(|n: &&Node| n.is_master() && ends_open(n)).map(|n| n.id);
+            if let Some(pid) = prev {
+                if self.spec.get(pid).map_or(false, |d| d.has_global()) {
+                    break;
+                }
+            }
+            let run_start = self.unk.iter().rposition(|u| !*u).map_or(0, |i| i + 1);
+            let pool: Vec<&&ElemDef> = cands
+                .iter()
+                .filter(|e| !(prev.is_some() && e.has_global()))
+                .filter(|e| !(run_start..chain.len()).any(|i| crate::refdec::ends_master(self.spec, chain[i], e.id)))
+                .collect();
             if pool.is_empty() {
                 break;
             }
@@ -371,9 +401,8 @@ impl<'a> DocGen<'a> {
             self.left -= 1;
             let node = if e.ty == Ty::Master {
                 let mut n = Node::master(e.id, vec![]);
-                // unknown size only for masters with placeholder-free paths (see DESIGN: "sibling"
-                // is declared-path equality)
-                if !e.has_global() && rng.below(100) < self.o.unknown_pct {
+                // (masters whose own path has a placeholder get unknown size half as often)
+                if rng.below(100) < self.o.unknown_pct && (!e.has_global() || rng.chance(1, 2)) {
                     n.enc.unknown = true;
                     if rng.chance(1, 3) {
                         n.enc.size_w = rng.range(1, 8) as u8;
@@ -381,7 +410,9 @@ impl<'a> DocGen<'a> {
                 }
                 if depth + 1 < self.o.max_depth {
                     chain.push(e.id);
+                    self.unk.push(n.enc.unknown);
                     let cs = self.gen_children(rng, chain, depth + 1, n.enc.unknown);
+                    self.unk.pop();
                     chain.pop();
                     n.body = Body::Master(cs);
                 }
@@ -432,7 +463,7 @@ pub fn ends_open(n: &Node) -> bool {
 }
 
 pub fn gen_doc(rng: &mut Rng, spec: &SpecTable, o: &DocOpts) -> Vec<Node> {
-    let mut g = DocGen { spec, o, left: rng.range(1, o.max_nodes.max(1)) };
+    let mut g = DocGen { spec, o, left: rng.range(1, o.max_nodes.max(1)), unk: Vec::new() };
     let roots: Vec<&ElemDef> = spec.elems.iter().filter(|e| e.path.is_empty()).collect();
     let mut doc = Vec::new();
     let n_roots = rng.range(1, o.max_roots.max(1));
@@ -451,6 +482,7 @@ pub fn gen_doc(rng: &mut Rng, spec: &SpecTable, o: &DocOpts) -> Vec<Node> {
                 }
             }
             let mut chain = vec![e.id];
+            g.unk = vec![n.enc.unknown];
             n.body = Body::Master(g.gen_children(rng, &mut chain, 1, n.enc.unknown));
             doc.push(n);
         } else {
